@@ -205,6 +205,28 @@ for kind, loader, pol, a, b in [("ksr", load_ksr, POL, xmlA, xmlB), ("skr", load
         if len(table) != len(obj.bundles) + 1:
             fail("bundle-table", "bundle table has a different number of rows than parsed bundles")
 
+# the table states the parsed instants exactly: fractional seconds and offsets survive, so that two differently parsed KSRs never show the same table
+kreqA = skrgen.k_request(reqA)
+for trial in range(12 * SCALE):
+    bs = []
+    for bnd in kreqA.bundles:
+        us_i, us_e = R.choice([0, 1, 250000, 999999]), R.choice([0, 500000, 999999])
+        bs.append(bnd.replace(inception=bnd.inception.replace(microsecond=us_i), expiration=bnd.expiration.replace(microsecond=us_e)))
+    table = format_bundles_for_humans(bs)
+    count("bundle-table-exact")
+    for line, bnd in zip(table[1:], bs):
+        f = line.split()
+        try:
+            inc, exp = dt.datetime.fromisoformat(f[1]), dt.datetime.fromisoformat(f[2])
+            inc = inc if inc.tzinfo else inc.replace(tzinfo=dt.timezone.utc)
+            exp = exp if exp.tzinfo else exp.replace(tzinfo=dt.timezone.utc)
+        except (ValueError, IndexError):
+            fail("bundle-table", "table row does not carry readable inception/expiration", {"line": line})
+            break
+        if inc != bnd.inception or exp != bnd.expiration:
+            fail("bundle-table", f"table shows {f[1]} .. {f[2]} for a bundle parsed as {bnd.inception.isoformat()} .. {bnd.expiration.isoformat()}", {"line": line})
+            break
+
 # ------------------------------------------------------------------ 3. ksrsigner(): what the operator sees before confirming, and the written SKR
 from kskm.tools.ksrsigner import ksrsigner
 
